@@ -1,0 +1,98 @@
+//go:build verif
+
+// Contracts for package stick (machine-checked by /verif/bin/stickvc; comment-only file).
+package stick
+
+// ---------------------------------------------------------------------------------------
+// Layer V — values and coercions (value.go), property C15
+//
+// The "def" clauses instantiate the definition of the spec functions numspec / strspec / truthspec
+// (speclib/values.spec, transcribed from the property statement) at the argument; "ensures spec" then
+// says that the code computes exactly that function — for every dynamic type, by the symbolic type tag.
+//@ pred isSafe(v Value) = istype(v, "SafeValue")
+//@ pred isNumberI(v Value) = istype(v, "Number")
+//@ pred isBooleanI(v Value) = istype(v, "Boolean")
+//@ pred isStringerI(v Value) = istype(v, "Stringer")
+//@ pred isDecimal(v Value) = istype(v, "decimal.Decimal")
+//@ pred isIntKind(v Value) = istype(v, "uint") || istype(v, "uint8") || istype(v, "uint16") || istype(v, "uint32") || istype(v, "uint64") || istype(v, "int") || istype(v, "int8") || istype(v, "int16") || istype(v, "int32") || istype(v, "int64")
+//@ pred isFloatKind(v Value) = istype(v, "float32") || istype(v, "float64")
+//@ pred intOf(v Value) = ite(istype(v, "uint"), unbox(v, "uint"), ite(istype(v, "uint8"), unbox(v, "uint8"), ite(istype(v, "uint16"), unbox(v, "uint16"), ite(istype(v, "uint32"), unbox(v, "uint32"), ite(istype(v, "uint64"), unbox(v, "uint64"), ite(istype(v, "int"), unbox(v, "int"), ite(istype(v, "int8"), unbox(v, "int8"), ite(istype(v, "int16"), unbox(v, "int16"), ite(istype(v, "int32"), unbox(v, "int32"), ite(istype(v, "int64"), unbox(v, "int64"), 0))))))))))
+//@ pred floatOf(v Value) = ite(istype(v, "float32"), unbox(v, "float32"), unbox(v, "float64"))
+
+// nilptr: a nil pointer wrapped in an interface (reflect.Ptr == 22)
+//@ pred nilptr(v Value) = kindof(v) == 22 && ref(v) == 0
+//@ func stick.isNilPointer
+//@   ensures spec: result == nilptr(v)
+//@   pure
+
+//@ func stick.CoerceNumber
+//@   def nilp: nilptr(v) ==> numspec(v) == 0
+//@   def safe: !nilptr(v) && isSafe(v) ==> numspec(v) == numspec(sv_inner(v))
+//@   def number: !nilptr(v) && !isSafe(v) && isNumberI(v) ==> numspec(v) == m_number(v)
+//@   def ints: !nilptr(v) && !isSafe(v) && !isNumberI(v) && isIntKind(v) ==> numspec(v) == real(intOf(v))
+//@   def floats: !nilptr(v) && !isSafe(v) && !isNumberI(v) && isFloatKind(v) ==> numspec(v) == floatOf(v)
+//@   def decimal: !nilptr(v) && !isSafe(v) && !isNumberI(v) && isDecimal(v) ==> numspec(v) == dec_float(unbox(v, "decimal.Decimal"))
+//@   def stringer: !nilptr(v) && !isSafe(v) && !isNumberI(v) && !isDecimal(v) && isStringerI(v) ==> numspec(v) == parsefloat(m_string(v))
+//@   def str: !nilptr(v) && istype(v, "string") ==> numspec(v) == parsefloat(unbox(v, "string"))
+//@   def boolean: !nilptr(v) && !isSafe(v) && !isNumberI(v) && !isDecimal(v) && !isStringerI(v) && isBooleanI(v) ==> numspec(v) == ite(m_boolean(v), 1, 0)
+//@   def bool: !nilptr(v) && istype(v, "bool") ==> numspec(v) == ite(unbox(v, "bool"), 1, 0)
+//@   def other: !nilptr(v) && !isSafe(v) && !isNumberI(v) && !isIntKind(v) && !isFloatKind(v) && !isDecimal(v) && !isStringerI(v) && !istype(v, "string") && !isBooleanI(v) && !istype(v, "bool") ==> numspec(v) == 0
+//@   ensures spec: result == numspec(v)
+
+//@ func stick.stringToFloat
+//@   ensures spec: result == parsefloat(s)
+
+//@ func stick.CoerceBool
+//@   def nilp: nilptr(v) ==> truthspec(v) == false
+//@   def safe: !nilptr(v) && isSafe(v) ==> truthspec(v) == truthspec(sv_inner(v))
+//@   def bool: !nilptr(v) && istype(v, "bool") ==> truthspec(v) == unbox(v, "bool")
+//@   def boolean: !nilptr(v) && !isSafe(v) && isBooleanI(v) ==> truthspec(v) == m_boolean(v)
+//@   def ints: !nilptr(v) && !isSafe(v) && !isBooleanI(v) && isIntKind(v) ==> truthspec(v) == (intOf(v) > 0)
+//@   def floats: !nilptr(v) && !isSafe(v) && !isBooleanI(v) && isFloatKind(v) ==> truthspec(v) == (floatOf(v) > 0)
+//@   def str: !nilptr(v) && istype(v, "string") ==> truthspec(v) == (len(unbox(v, "string")) > 0)
+//@   def decimal: !nilptr(v) && !isSafe(v) && !isBooleanI(v) && isDecimal(v) ==> truthspec(v) == dec_positive(unbox(v, "decimal.Decimal"))
+//@   def stringer: !nilptr(v) && !isSafe(v) && !isBooleanI(v) && !isDecimal(v) && isStringerI(v) ==> truthspec(v) == (len(m_string(v)) > 0)
+//@   def number: !nilptr(v) && !isSafe(v) && !isBooleanI(v) && !isDecimal(v) && !isStringerI(v) && isNumberI(v) ==> truthspec(v) == (m_number(v) > 0)
+//@   def other: !nilptr(v) && !isSafe(v) && !istype(v, "bool") && !isBooleanI(v) && !isIntKind(v) && !isFloatKind(v) && !istype(v, "string") && !isDecimal(v) && !isStringerI(v) && !isNumberI(v) ==> truthspec(v) == false
+//@   ensures spec: result == truthspec(v)
+
+//@ func stick.CoerceString
+//@   def nilp: nilptr(v) ==> strspec(v) == ""
+//@   def safe: !nilptr(v) && isSafe(v) ==> strspec(v) == strspec(sv_inner(v))
+//@   def str: !nilptr(v) && istype(v, "string") ==> sameview(strspec(v), unbox(v, "string"))
+//@   def stringer: !nilptr(v) && !isSafe(v) && isStringerI(v) ==> strspec(v) == m_string(v)
+//@   def nums: !nilptr(v) && !isSafe(v) && !isStringerI(v) && (isIntKind(v) || isFloatKind(v)) ==> strspec(v) == fmtv(v)
+//@   def number: !nilptr(v) && !isSafe(v) && !isStringerI(v) && !isIntKind(v) && !isFloatKind(v) && isNumberI(v) ==> strspec(v) == fmtv(box(m_number(v), "float64"))
+//@   def boolean: !nilptr(v) && !isSafe(v) && !isStringerI(v) && !isIntKind(v) && !isFloatKind(v) && !isNumberI(v) && isBooleanI(v) ==> strspec(v) == ite(m_boolean(v), "1", "")
+//@   def boolt: !nilptr(v) && istype(v, "bool") && unbox(v, "bool") ==> strspec(v) == "1"
+//@   def boolf: !nilptr(v) && istype(v, "bool") && !unbox(v, "bool") ==> strspec(v) == ""
+//@   def other: !nilptr(v) && !isSafe(v) && !istype(v, "string") && !isStringerI(v) && !isIntKind(v) && !isFloatKind(v) && !isNumberI(v) && !isBooleanI(v) && !istype(v, "bool") ==> strspec(v) == ""
+//@   ensures total: len(result) >= 0
+//@   ensures nilp: nilptr(v) ==> result == ""
+//@   ensures safe: !nilptr(v) && isSafe(v) ==> result == strspec(sv_inner(v))
+//@   ensures str: istype(v, "string") ==> sameview(result, unbox(v, "string"))
+//@   ensures boolt: istype(v, "bool") && unbox(v, "bool") ==> result == "1"
+//@   ensures boolf: istype(v, "bool") && !unbox(v, "bool") ==> result == ""
+//@   ensures nums: !nilptr(v) && !isSafe(v) && !isStringerI(v) && (isIntKind(v) || isFloatKind(v)) ==> result == fmtv(v)
+//@   ensures other: !nilptr(v) && !isSafe(v) && !istype(v, "string") && !isStringerI(v) && !isIntKind(v) && !isFloatKind(v) && !isNumberI(v) && !isBooleanI(v) && !istype(v, "bool") ==> result == ""
+//@   ensures fn: result == strspec(v)
+
+// Safe-value wrapper: the built-in implementation returns what it wraps, and NewSafeValue wraps the
+// given value (or, for a value that is already safe, that value's inner value: no nesting).
+//@ func stick.safeValue.Value
+//@   ensures result == v.val
+//@   pure
+//@ func stick.safeValue.IsSafe
+//@   ensures spec: result == in(v.safeFor, typ)
+//@   pure
+//@ func stick.safeValue.SafeFor
+//@   loop 1 invariant i == rangepos() && local(r)
+//@ func stick.NewSafeValue
+// (a nil pointer of a foreign type implementing SafeValue is outside the claim: assumption A9)
+//@   requires !nilptr(val)
+//@   def svdef: istype(result, "safeValue") ==> sv_inner(result) == unbox(result, "safeValue").val
+//@   ensures wrapped: istype(result, "safeValue")
+//@   ensures plain: !isSafe(val) ==> sv_inner(result) == val
+//@   ensures flat: isSafe(val) ==> sv_inner(result) == sv_inner(val)
+//@   loop 1 invariant safeFor != nil
+//@   loop 2 invariant safeFor != nil
